@@ -809,6 +809,21 @@ impl BackupManager {
         Ok(metadata)
     }
 
+    /// Snapshot file that restoring `metadata`'s chain leaves in place: the one shipped by the nearest
+    /// backup along the parent links that carries a snapshot.
+    fn chain_snapshot_file(&self, metadata: &BackupMetadata) -> Option<String> {
+        let mut current = metadata.clone();
+        loop {
+            if current.snapshot_file.is_some() || current.backup_type == BackupType::Full {
+                return current.snapshot_file;
+            }
+            let path = self
+                .backup_dir
+                .join(format!("backup_{}.json", current.parent_id?));
+            current = serde_json::from_str(&fs::read_to_string(path).ok()?).ok()?;
+        }
+    }
+
     /// Create an incremental backup (WAL entries since last backup)
     pub fn create_incremental_backup(
         &self,
@@ -838,6 +853,7 @@ impl BackupManager {
         let manifest_layout = read_manifest_layout(&manifest_path)?;
         let mut entries = Vec::new();
         let mut max_wal_file_id: Option<u64> = None;
+        let referenced_snapshot: Option<String>;
 
         let all_wal_segments = list_wal_segments_in_dir(&self.data_dir)?;
         let modified_since_parent = |path: &Path| -> bool {
@@ -891,11 +907,18 @@ impl BackupManager {
                     a_id.cmp(&b_id).then_with(|| a.cmp(b))
                 });
                 manifest.wal_segments.dedup();
+                referenced_snapshot = manifest.latest_snapshot.clone();
                 let manifest_bytes =
                     serde_json::to_vec_pretty(&manifest).context("Failed to serialize MANIFEST")?;
                 entries.push(ArchiveEntry::from_bytes("MANIFEST", manifest_bytes));
             }
-            Some(ManifestLayout::Legacy { raw_bytes, .. }) => {
+            Some(ManifestLayout::Legacy {
+                snapshot_number,
+                raw_bytes,
+            }) => {
+                referenced_snapshot = snapshot_number
+                    .filter(|n| *n > 0)
+                    .map(|n| format!("snapshot_{}", n));
                 entries.push(ArchiveEntry::from_bytes("MANIFEST", raw_bytes));
             }
             None => {
@@ -903,6 +926,24 @@ impl BackupManager {
                     "Cannot create incremental backup without MANIFEST in {}",
                     self.data_dir.display()
                 ));
+            }
+        }
+
+        // The shipped MANIFEST may name a snapshot taken after the parent backup; the WAL segments that
+        // snapshot covers may already be compacted away, so the chain must carry the snapshot itself.
+        let mut snapshot_file = None;
+        if let Some(snapshot_name) = referenced_snapshot {
+            if self.chain_snapshot_file(&parent_metadata).as_deref() != Some(snapshot_name.as_str())
+            {
+                let snapshot_path = self.data_dir.join(&snapshot_name);
+                anyhow::ensure!(
+                    snapshot_path.exists(),
+                    "MANIFEST references missing snapshot '{}' in {}",
+                    snapshot_name,
+                    self.data_dir.display()
+                );
+                snapshot_file = Some(snapshot_name.clone());
+                entries.push(ArchiveEntry::from_path(snapshot_name, snapshot_path));
             }
         }
 
@@ -957,7 +998,7 @@ impl BackupManager {
             parent_id: Some(parent_id),
             description,
             max_wal_file_id,
-            snapshot_file: None,
+            snapshot_file,
         };
 
         // Save metadata
